@@ -134,6 +134,15 @@ TreeOfNodes(ns) ==
         LET x == CHOOSE y \in SeqRange(ns) : y.p = p
         IN  [k |-> x.k, c |-> x.c, t |-> x.t, mt |-> x.mt, mode |-> x.mode, u |-> x.u, g |-> x.g]]
 
+\* where two trees differ: <<path, what>> with what = "missing" (only in A), "extra" (only in B)
+\* or the set of differing fields
+NodeFields == {"k", "c", "t", "mt", "mode", "u", "g"}
+TreeDiff(A, B) ==
+    { <<p, IF p \notin DOMAIN B THEN "missing"
+           ELSE IF p \notin DOMAIN A THEN "extra"
+           ELSE {f \in NodeFields : A[p][f] # B[p][f]}>> :
+      p \in {q \in (DOMAIN A) \cup (DOMAIN B) : q \notin DOMAIN A \/ q \notin DOMAIN B \/ A[q] # B[q]} }
+
 \* restriction of a tree to a subtree and to non-excluded paths
 TreeSel(T, S, M) == [p \in {q \in DOMAIN T : IsAncestorOrSelf(S, q) /\ ~Excluded(q, M)} |-> T[p]]
 
